@@ -116,7 +116,7 @@ def value_case(draw, tier):
     # still meaningful under the cancellation-aware tolerance (the bound grows like the largest term of the sum)
     j = draw(st.integers(1, JMAX_VALUES)) if draw(st.integers(0, 3)) else draw(st.integers(JMAX_VALUES + 1, 820))
     k = draw(st.integers(0, 2**31 - 1))
-    special = draw(st.sampled_from(["random", "edge", "origin", "axes"]))
+    special = draw(st.sampled_from(["random", "edge", "origin", "axes", "beyond", "beyond"]))
     return {"j": j, "seed": k, "points": special, "normalize": draw(st.booleans()),
             "shape": list(draw(gen.shape2(1, 9)))}
 
@@ -140,6 +140,10 @@ def values(case, ctx):
     theta = rng.uniform(-2 * np.pi, 2 * np.pi, size=shape)
     if case["points"] == "edge":
         rho[:] = 1.0
+    elif case["points"] == "beyond":
+        # caller-supplied coordinates are arbitrary: a grid reaching past the unit circle (coordinates normalised to
+        # a nominal radius smaller than the aperture); the polynomial is what it is there, only the bound |Z| <= 1 is not
+        rho = rho * 1.5
     elif case["points"] == "origin":
         rho.flat[0] = 0.0
     elif case["points"] == "axes":
@@ -172,7 +176,7 @@ def values(case, ctx):
         raise Violation("C11.values.formula",
                         f"mode j={j} (n={n}, |m|={am}, {kind}, normalize={case['normalize']}) at rho={rho.flat[i]:.6f} "
                         f"theta={theta.flat[i]:.6f}: {got.flat[i]:.12e} vs {float(ref.flat[i]):.12e}")
-    if not case["normalize"] and np.any(np.abs(got) > 1 + tol):
+    if not case["normalize"] and np.any((np.abs(got) > 1 + tol) & (rho <= 1)):
         raise Violation("C11.values.bounded", f"unnormalised mode j={j} exceeds 1 in magnitude")
     if case["points"] == "edge":
         # R(1) = 1: at rho = 1 the value is the pure angular factor times the norm
